@@ -31,13 +31,85 @@ def run(R):
         radt_ = tonic.adt('reconnect::Reconnect')['variants'][0]['fields']
         F_STATE = [f_['n'] for f_ in radt_ if f_['ty'].startswith('transport::channel::service::reconnect::State<')]
         F_ERR = [f_['n'] for f_ in radt_ if f_['ty'].startswith('std::option::Option<') and 'Error' in f_['ty']]
-        bools_ = [f_['n'] for f_ in radt_ if f_['ty'] == 'bool']
+        # a flag: a bool, or a field-less two-variant enum of this crate (ConnectMode::{Eager, Lazy} is as good as is_lazy: bool)
+        def flag_enum(ty_):
+            try:
+                ad_ = tonic.adt(ty_)
+            except CheckError:
+                return None
+            if ad_.get('kind') == 'enum' and len(ad_['variants']) == 2 and all(not v_.get('fields') for v_ in ad_['variants']):
+                return {v_['name']: v_['discr'] for v_ in ad_['variants']}
+            return None
+        bools_ = [f_['n'] for f_ in radt_ if f_['ty'] == 'bool' or ('::' in f_['ty'] and '<' not in f_['ty'] and flag_enum(f_['ty']) is not None)]
         assigned_ = {mirlib.place_fields(st_['p'])[-1] for bb_, i_, st_ in mirlib.assignments(pr, lambda st_: st_['p']['l'] == 1 and mirlib.place_fields(st_['p'])[-1:] and mirlib.place_fields(st_['p'])[-1] in bools_)}
         if len(F_STATE) != 1 or len(F_ERR) != 1 or len(bools_) != 2 or len(assigned_) != 1:
-            raise CheckError('UNRECOGNISED: Reconnect fields by role: state %r, error slot %r, bools %r (assigned in poll_ready: %r)' % (F_STATE, F_ERR, bools_, sorted(assigned_)))
+            raise CheckError('UNRECOGNISED: Reconnect fields by role: state %r, error slot %r, flags %r (assigned in poll_ready: %r)' % (F_STATE, F_ERR, bools_, sorted(assigned_)))
         F_STATE, F_ERR = F_STATE[0], F_ERR[0]
         F_CONN = sorted(assigned_)[0]
         F_LAZY = [b_ for b_ in bools_ if b_ != F_CONN][0]
+        LAZY_TY = [f_['ty'] for f_ in radt_ if f_['n'] == F_LAZY][0]
+        LAZY_ENUM = None if LAZY_TY == 'bool' else flag_enum(LAZY_TY)
+        LAZY_PAT = r'^bool$' if LAZY_ENUM is None else r'(^|::)' + re.escape(LAZY_TY.split('::')[-1]) + '$'
+
+        def flag_value(t_):
+            # the constant a flag-typed term denotes: True/False, or the variant name
+            x_ = strip_refs(mirlib.simplify(t_))
+            if LAZY_ENUM is None:
+                v_ = const_val(x_)
+                return v_ if isinstance(v_, bool) else None
+            if x_ and x_[0] == 'agg' and x_[1].get('variant') in LAZY_ENUM:
+                return x_[1]['variant']
+            v_ = const_val(x_)
+            if isinstance(v_, int) and not isinstance(v_, bool):
+                return {d_: n_ for n_, d_ in LAZY_ENUM.items()}.get(v_)
+            return None
+        # which value means "lazy": the one Connection::lazy passes (the other one is what Connection::connect passes)
+        cn_new_ = tonic.body('connection::Connection::new')
+        mode_pos_ = param_of_type(cn_new_, LAZY_PAT) - 1
+        passed_ = {}
+        for nm_ in ('connect', 'lazy'):
+            for b_ in [b_ for b_ in tonic.bodies if b_.kind in ('fn', 'coroutine') and re.search(r'connection::Connection::%s(::\{closure#0\})?$' % nm_, b_.path)]:
+                for bb_, t_ in b_.calls(pat='Connection::new'):
+                    passed_[nm_] = flag_value(b_.origin(t_['args'][mode_pos_]))
+        LAZY_V, EAGER_V = passed_.get('lazy'), passed_.get('connect')
+        if LAZY_V is None or EAGER_V is None or LAZY_V == EAGER_V:
+            raise CheckError('UNRECOGNISED: Connection::lazy / Connection::connect pass the flag values %r / %r to Connection::new' % (LAZY_V, EAGER_V))
+
+        def pins_eager(g_):
+            # some guard on the path decides the flag field to be the eager value
+            # `a || b` materialised as a value is phi(true | b): it being false means every alternative is false
+            g2_ = []
+            for s_, vals_, tm_ in g_:
+                t0_ = strip_refs(tm_)
+                if t0_ and t0_[0] == 'phi' and vals_ == [0]:
+                    g2_ += [(s_, vals_, a_) for a_ in t0_[1] if const_val(strip_refs(a_)) is None]
+                else:
+                    g2_.append((s_, vals_, tm_))
+            for s_, vals_, tm_ in g2_:
+                tm_ = strip_refs(tm_)
+                if LAZY_ENUM is None:
+                    if field_names(tm_)[-1:] == [F_LAZY]:
+                        truth_ = pr.edge_truth(s_, vals_)
+                        if truth_ is not None and truth_ == EAGER_V:
+                            return True
+                    continue
+                if tm_ and tm_[0] == 'discr' and field_names(tm_[1])[-1:] == [F_LAZY]:
+                    if vals_ == [LAZY_ENUM[EAGER_V]]:
+                        return True
+                    if vals_ == ['else'] and [v_ for v_, _ in pr.term(s_)['arms']] == [LAZY_ENUM[LAZY_V]]:
+                        return True
+                if is_call(tm_) and tm_[3] in ('eq', 'ne') and len(tm_[2]) == 2:
+                    a_, b2_ = tm_[2]
+                    for fld_, cst_ in ((a_, b2_), (b2_, a_)):
+                        if field_names(fld_)[-1:] == [F_LAZY] and flag_value(cst_) is not None:
+                            truth_ = pr.edge_truth(s_, vals_)
+                            if truth_ is None:
+                                continue
+                            equal_ = truth_ if tm_[3] == 'eq' else (not truth_)
+                            cv_ = flag_value(cst_)
+                            if (equal_ and cv_ == EAGER_V) or (not equal_ and cv_ == LAZY_V):
+                                return True
+            return False
         sadt = tonic.adt('reconnect::State')
         vname = {v['discr']: v['name'] for v in sadt['variants']}
         state_locals = [l for l in range(len(pr.local_tys)) if pr.tystr(pr.local_tys[l]).startswith('transport::channel::service::reconnect::State<') and pr.name_of(l) is not None]
@@ -198,7 +270,7 @@ def run(R):
         for bb in errw:
             g = pr.edge_guards(bb)
             hbf = any(field_names(tm)[-1:] == [F_CONN] and vals == [0] for s, vals, tm in g)
-            lzf = any(field_names(tm)[-1:] == [F_LAZY] and vals == [0] for s, vals, tm in g)
+            lzf = pins_eager(g)
             R.check(hbf and lzf, 'C14.R3', 'eager-first-failure-only', site(pr, bb), 'Err returned only when has_been_connected == false (%r) and is_lazy == false (%r)' % (hbf, lzf))
             pay = [w for w in block_writes(pr, bb, 0)][0][3][0]
             R.check(term_contains(pay, lambda x: is_call(x, name='poll')) and term_contains(pay, lambda x: x and x[0] == 'variant' and x[2] == 'Err'), 'C14.R3', 'returns-the-connect-error', site(pr, bb), 'payload = %s' % show(pay)[:100])
@@ -219,7 +291,7 @@ def run(R):
         if okn:
             f = ag[0][3]['fields']
             ops = ag[0][4]
-            okn = const_val(nw.origin(ops[f.index(F_CONN)])) is False and (strip_refs(nw.origin(ops[f.index(F_LAZY)]))[0] == 'arg' and nw.ty(strip_refs(nw.origin(ops[f.index(F_LAZY)]))[1]) == 'bool') and strip_refs(nw.origin(ops[f.index(F_STATE)]))[1].get('variant') == 'Idle' and strip_refs(nw.origin(ops[f.index(F_ERR)]))[1].get('variant') == 'None'
+            okn = const_val(nw.origin(ops[f.index(F_CONN)])) is False and (strip_refs(nw.origin(ops[f.index(F_LAZY)]))[0] == 'arg' and re.search(LAZY_PAT, nw.ty(strip_refs(nw.origin(ops[f.index(F_LAZY)]))[1])) is not None) and strip_refs(nw.origin(ops[f.index(F_STATE)]))[1].get('variant') == 'Idle' and strip_refs(nw.origin(ops[f.index(F_ERR)]))[1].get('variant') == 'None'
         R.check(okn, 'C14.R3', 'new:initial-state', site(nw), 'Reconnect{state: Idle, error: None, has_been_connected: false, is_lazy}')
 
     # ---------------------------------------------------------------- R2 call
@@ -252,15 +324,15 @@ def run(R):
         for nm, lazy in (('connect', False), ('lazy', True)):
             cands = [b for b in tonic.bodies if b.kind in ('fn', 'coroutine') and re.search(r'connection::Connection::%s(::\{closure#0\})?$' % nm, b.path)]
             hit = [(b, bb, t) for b in cands for bb, t in b.calls(pat='Connection::new')]
-            R.check(len(hit) == 1 and const_val(hit[0][0].origin(hit[0][2]['args'][param_of_type(tonic.body('connection::Connection::new'), r'^bool$') - 1])) is lazy, 'C14.R4', '%s:is_lazy=%s' % (nm, str(lazy).lower()), site(hit[0][0], hit[0][1]) if hit else '', 'Connection::new(.., %s)' % (const_val(hit[0][0].origin(hit[0][2]['args'][-1])) if hit else None))
+            R.check(len(hit) == 1 and flag_value(hit[0][0].origin(hit[0][2]['args'][mode_pos_])) == (LAZY_V if lazy else EAGER_V), 'C14.R4', '%s:is_lazy=%s' % (nm, str(lazy).lower()), site(hit[0][0], hit[0][1]) if hit else '', 'Connection::new(.., %s)' % (flag_value(hit[0][0].origin(hit[0][2]['args'][-1])) if hit else None))
             if nm == 'connect' and hit:
                 ro = [1 for b in cands for bb, t in b.calls(name='ready_oneshot')]
                 R.check(len(ro) == 1, 'C14.R4', 'connect:ready_oneshot', site(hit[0][0]), 'eager connect drives poll_ready once (ready_oneshot sites: %d)' % len(ro))
         cn = tonic.body('connection::Connection::new')
         rc = cn.calls(pat='Reconnect', name='new')
         nwb = tonic.body('reconnect::Reconnect::<M, Target>::new')
-        lz_pos = param_of_type(nwb, r'^bool$') - 1
-        cn_lz = param_of_type(cn, r'^bool$')
+        lz_pos = param_of_type(nwb, LAZY_PAT) - 1
+        cn_lz = param_of_type(cn, LAZY_PAT)
         R.check(len(rc) == 1 and strip_refs(cn.origin(rc[0][1]['args'][lz_pos]))[:2] == ('arg', cn_lz), 'C14.R4', 'is_lazy-plumbed', site(cn), 'Reconnect::new(.., is_lazy) receives Connection::new\'s flag: %s' % (show(cn.origin(rc[0][1]['args'][lz_pos])) if rc else None))
 
     # the public entry points: eager connects go through Channel::connect (-> Connection::connect) on every path, lazy ones
